@@ -206,6 +206,9 @@ pub fn parse_str(input: &str, common_context: &CommonContext) -> Result<ParseRes
     );
 
     parse(input, &context)?;
+    common_context
+        .include_paths
+        .replace(context.include_paths.borrow().clone());
 
     Ok(context.as_parse_result())
 }
@@ -218,6 +221,9 @@ pub fn parse_file(
     let context = ParseContext::new(path, RefCell::new(paths), common_context.clone());
 
     parse_file_internal(&context)?;
+    common_context
+        .include_paths
+        .replace(context.include_paths.borrow().clone());
 
     Ok(context.as_parse_result())
 }
